@@ -190,6 +190,12 @@ where
                                 );
                             }
 
+                            // Let the connections we have just kicked off make progress before we
+                            // signal the shutdown: a connection that has not been polled yet is still
+                            // detecting the HTTP version, and `hyper_util` drops such connections on
+                            // a graceful shutdown, even if the client has already sent its request.
+                            tokio::task::yield_now().await;
+
                             // Wait for all live connections to be closed or for the timeout to expire.
                             let _ = tokio::time::timeout(timeout, shutdown_coordinator.shutdown())
                                 .await;
